@@ -8,12 +8,21 @@ VALID = r"session::Session::valid$"
 
 
 def closure_calls(prog, d, rx):
-    """Does a closure appearing in description d call something matching rx?"""
+    """Does a closure — or a predicate function handed over by name (`.filter(has_live_session)`) — appearing in description d call
+    something matching rx?  A named predicate must return `true` only as the result of that call (its other results are `false`)."""
     for y in _nodes(d):
         if y[0] == "closure" and y[1] in prog.bodies:
             for p in prog.reach_bodies([y[1]]):
                 if prog.bodies[p].calls_to(rx):
                     return True
+        if y[0] == "fn" and y[1] in prog.bodies and prog.bodies[y[1]].local_ty(0) == "bool":
+            fb = prog.bodies[y[1]]
+            r = describe(prog, fb, 0)
+            alts = r[1] if r[0] == "multi" else [r]
+            ok = bool(alts) and any(a[0] == "call" and core.re.search(rx, a[1]) for a in alts) and \
+                all((a[0] == "call" and core.re.search(rx, a[1])) or a == ("lit", False) for a in alts)
+            if ok:
+                return True
     return False
 
 
@@ -183,7 +192,11 @@ def run(chk):
                            through_edges=set(e for blk, t in b.calls_to(r"get_user_by_(token|uid)$") for e in __import__("hv.props.c01", fromlist=["x"]).some_edge_of(prog, b, blk, "None")))
         chk.ob("R4.invalidate", fn, "the session is cleared and the user written back", cleared and w is None, "", path=w)
     # ---- R5 with_auth_route
-    cl = [b for p, b in prog.bodies.items() if "humphrey_auth::app::" in p and b.kind == "closure" and b.calls_to(r"AuthProvider::<T>::get_uid_by_token$")]
+    from ..inline import owner_fn
+    newf = set(getattr(prog, "new_functions", []) or [])
+    # (closures of helpers that did not exist on the pinned tree are looked at where the helper is inlined)
+    cl = [b for p, b in prog.bodies.items() if "humphrey_auth::app::" in p and b.kind == "closure" and owner_fn(p) not in newf and
+          b.calls_to(r"AuthProvider::<T>::get_uid_by_token$")]
     chk.floor("auth route closure", len(cl), 1)
     for c in cl:
         gets = c.calls_to(r"AuthProvider::<T>::get_uid_by_token$")
